@@ -133,8 +133,15 @@ def execute(sc):
     partial_state_calls = 0
     raised = False
     loop = None
+    # simulated process clock (always on): line rate plus the stalls the fragmentation spec puts before some deliveries
+    clock = reader_rig.ProcessClock()
+    stall = {}
+    for k, sec in sub["cuts"].get("gaps") or ():
+        stall[k % len(chunks)] = stall.get(k % len(chunks), 0.0) + float(sec)
+    if stall:
+        probes["stalled_delivery"] = 1
     try:
-        with stepbudget.StepBudget(budget) as sb:
+        with clock, stepbudget.StepBudget(budget) as sb:
             by = None
             if sc.get("bystander"):
                 fam = sub["reader"]
@@ -146,6 +153,7 @@ def execute(sc):
                 for idx, chunk in enumerate(chunks):
                     if by is not None:
                         by.step(idx)
+                    clock.t += stall.get(idx, 0.0) + len(chunk) / reader_rig.LINE_RATE
                     try:
                         msgs = reader.read(chunk)
                     except Exception as ex:  # noqa: BLE001
@@ -185,6 +193,7 @@ def execute(sc):
                 for idx, chunk in enumerate(chunks):
                     if by is not None:
                         by.step(idx)
+                    clock.t += stall.get(idx, 0.0) + len(chunk) / reader_rig.LINE_RATE
                     try:
                         proto.data_received(chunk)
                     except Exception as ex:  # noqa: BLE001
